@@ -293,3 +293,15 @@ Proof.
   split; [apply nodupb_NoDup; vm_compute; reflexivity|]. split; [apply nodupb_NoDup; vm_compute; reflexivity|].
   split; [vm_compute; reflexivity|]. split; [repeat constructor|]. repeat split; vm_compute; reflexivity.
 Qed.
+
+(* the third disjunct of lookup_total: add-iam-methods together with the IAM mixin *)
+Definition ex_iam_svc : svc :=
+  mkSvc "p.v1" "Library" [mk "GetBook" false false] ["SetIamPolicy"; "GetIamPolicy"; "TestIamPermissions"] true.
+Lemma ex_iam_supplied :
+  s_add_iam ex_iam_svc = true /\ iam_supplied ex_iam_svc /\
+  dispatch Async ex_iam_svc (mkCM "set_iam_policy" Table "set_iam_policy") =
+    Some (mkStub "set_iam_policy" UU "/google.iam.v1.IAMPolicy/SetIamPolicy" "SerializeToString" "FromString").
+Proof.
+  split; [reflexivity|]. split; [|vm_compute; reflexivity].
+  intros n H. simpl in H. simpl. intuition.
+Qed.
